@@ -55,6 +55,33 @@ impl BytesMut {
         requires cnt <= old(self)@.len()
         ensures final(self)@ == old(self)@.subrange(cnt as int, old(self)@.len() as int)
     { unimplemented!() }
+    /// BytesMut::split: takes ALL buffered bytes out, leaving the buffer empty
+    #[verifier::external_body]
+    pub fn split(&mut self) -> (r: BytesMut)
+        ensures r@ == old(self)@, final(self)@ == Seq::<u8>::empty()
+    { unimplemented!() }
+    /// BytesMut::split_to: takes the first `at` bytes out; panics if at > len
+    #[verifier::external_body]
+    pub fn split_to(&mut self, at: usize) -> (r: BytesMut)
+        requires at <= old(self)@.len()
+        ensures r@ == old(self)@.subrange(0, at as int), final(self)@ == old(self)@.subrange(at as int, old(self)@.len() as int)
+    { unimplemented!() }
+    /// BytesMut::split_off: keeps the first `at` bytes, returns the rest; panics if at > capacity (stated for at <= len)
+    #[verifier::external_body]
+    pub fn split_off(&mut self, at: usize) -> (r: BytesMut)
+        requires at <= old(self)@.len()
+        ensures final(self)@ == old(self)@.subrange(0, at as int), r@ == old(self)@.subrange(at as int, old(self)@.len() as int)
+    { unimplemented!() }
+    /// BytesMut::truncate: keeps the first `len` bytes (no effect if len >= current length)
+    #[verifier::external_body]
+    pub fn truncate(&mut self, len: usize)
+        ensures final(self)@ == (if len <= old(self)@.len() { old(self)@.subrange(0, len as int) } else { old(self)@ })
+    { unimplemented!() }
+    /// BytesMut::clear
+    #[verifier::external_body]
+    pub fn clear(&mut self)
+        ensures final(self)@ == Seq::<u8>::empty()
+    { unimplemented!() }
     /// bytes::BufMut::put_u32: appends the big-endian bytes (BytesMut grows on demand)
     #[verifier::external_body]
     pub fn put_u32(&mut self, n: u32)
